@@ -50,29 +50,29 @@ func main() {
 		CaseTimeout: 90 * time.Second,
 		Race:        true,
 		Floors: map[string]int64{
-			"scen_seq":                                    300,
-			"scen_gated":                                  190,
-			"scen_free":                                   80,
-			"scen_ecache":                                 160,
-			"seq_read_through_copied":                     290,
-			"seq_reads_failed":                            250,
-			"seq_puts":                                    580,
-			"seq_findmissing_mixed":                       44,
-			"settled_with_dedup_waiters":                  280,
-			"settled_with_semaphore_waiters":              220,
-			"settled_with_queue_waiters":                  400,
-			"dedup_failure_overlapping_success":           30,
-			"cancelled_while_parked_inside":               30,
-			"climit_saturated":                            100,
-			"success_justified_by_copy":                   490,
-			"success_justified_by_found_by_findmissing":   110,
-			"success_justified_by_queued_existence_cache": 40,
-			"ecache_hits":                                 980,
-			"ecache_hits_at_exact_duration":               110,
-			"ecache_expired_just_after_duration":          140,
-			"concurrent_read_throughs":                    120,
-			"concurrent_present_reports":                  420,
-			"composite_clean_scenarios":                   24,
+			"scen_seq":                                    210,
+			"scen_gated":                                  133,
+			"scen_free":                                   56,
+			"scen_ecache":                                 112,
+			"seq_read_through_copied":                     203,
+			"seq_reads_failed":                            175,
+			"seq_puts":                                    406,
+			"seq_findmissing_mixed":                       30,
+			"settled_with_dedup_waiters":                  196,
+			"settled_with_semaphore_waiters":              154,
+			"settled_with_queue_waiters":                  280,
+			"dedup_failure_overlapping_success":           21,
+			"cancelled_while_parked_inside":               21,
+			"climit_saturated":                            70,
+			"success_justified_by_copy":                   343,
+			"success_justified_by_found_by_findmissing":   77,
+			"success_justified_by_queued_existence_cache": 28,
+			"ecache_hits":                                 686,
+			"ecache_hits_at_exact_duration":               77,
+			"ecache_expired_just_after_duration":          98,
+			"concurrent_read_throughs":                    84,
+			"concurrent_present_reports":                  294,
+			"composite_clean_scenarios":                   16,
 		},
 		Assumptions: []string{
 			"an injected backend failure never uses NOT_FOUND (that code means 'the backend does not hold the object', which is the placement the oracle reasons about)",
@@ -105,21 +105,21 @@ func body(w *run.Worker) {
 	if only := os.Getenv("C17_ONLY"); only != "" { // debugging aid: run one group only (floors will be missed)
 		switch only {
 		case "seq":
-			w.Cases("seq", w.N(1600, 50000), func(c *run.Case) { seqCase(c, w, caseRng(c)) })
+			w.Cases("seq", w.N(1200, 50000), func(c *run.Case) { seqCase(c, w, caseRng(c)) })
 		case "ecache":
-			w.Cases("ecache", w.N(800, 20000), func(c *run.Case) { ecacheCase(c, w, caseRng(c)) })
+			w.Cases("ecache", w.N(600, 20000), func(c *run.Case) { ecacheCase(c, w, caseRng(c)) })
 		case "repl":
-			w.Cases("conc", w.N(1400, 30000), func(c *run.Case) { replScenario(c, w, caseRng(c)) })
+			w.Cases("conc", w.N(1000, 30000), func(c *run.Case) { replScenario(c, w, caseRng(c)) })
 		case "composite":
-			w.Cases("conc", w.N(1400, 30000), func(c *run.Case) { compositeScenario(c, w, caseRng(c)) })
+			w.Cases("conc", w.N(1000, 30000), func(c *run.Case) { compositeScenario(c, w, caseRng(c)) })
 		case "ec":
-			w.Cases("conc", w.N(1400, 30000), func(c *run.Case) { ecScenario(c, w, caseRng(c)) })
+			w.Cases("conc", w.N(1000, 30000), func(c *run.Case) { ecScenario(c, w, caseRng(c)) })
 		}
 		return
 	}
-	w.Cases("seq", w.N(1600, 50000), func(c *run.Case) { seqCase(c, w, caseRng(c)) })
-	w.Cases("ecache", w.N(800, 20000), func(c *run.Case) { ecacheCase(c, w, caseRng(c)) })
-	w.Cases("conc", w.N(1400, 30000), func(c *run.Case) {
+	w.Cases("seq", w.N(1200, 50000), func(c *run.Case) { seqCase(c, w, caseRng(c)) })
+	w.Cases("ecache", w.N(600, 20000), func(c *run.Case) { ecacheCase(c, w, caseRng(c)) })
+	w.Cases("conc", w.N(1000, 30000), func(c *run.Case) {
 		r := caseRng(c)
 		switch k := r.Intn(20); {
 		case k < 11:
